@@ -22,7 +22,7 @@ ASSUMPTIONS = common.ASSUME_QR + ['domains as documented: security in {None, WEP
                                   'MeCard ADR is one field whose value is the comma-joined components (the statement speaks of ";" only)']
 REQUIRED = ['evaluations', 'wifi_checked', 'mecard_checked', 'vcard_checked', 'geo_checked', 'email_checked', 'epc_accepted',
             'epc_refused_as_expected', 'symbols_checked', 'adversarial_values_used']
-TIMEOUT = {'quick': 900, 'thorough': 7200}
+TIMEOUT = {'quick': 3600, 'thorough': 21600}
 
 NASTY = [';', ':', ',', '\\', '"', '\r\n', '\n', '\r', '\\;', ';;', '\\\\', 'a;b', 'x:y', 'T:WPA;P:1', ';TEL:666', '\\', 'tail\\',
          '\\;tail', '"quoted"', 'a,b', ' ', 'ü', '東京', '☃', '%41', '&', '=', '?', '#', '+', "'"]
